@@ -238,25 +238,23 @@ def verus_unit(unit, tier, seed):
             failures.append(c)
     # vacuity
     vac = {"probes": len(info["vac_probes"]), "failed_as_expected": 0, "vacuous": []}
-    if info["vac_probes"]:
-        vpath = os.path.join(out, "unit_vac.rs")
+    for vfile in sorted({p.get("file", "unit_vac.rs") for p in info["vac_probes"]}):
+        vpath = os.path.join(out, vfile)
         rv = run_verus(vpath, multiple_errors=20)
         if front_end_failed(rv):
             raise Undecided(f"{unit}: vacuity run crashed: {rv['stderr'][-400:]}")
-        vlines = open(vpath).read().split("\n")
         hit = set()
         for d in rv["diags"]:
             for s in d.get("spans", []):
                 hit.add(s["line_start"])
-        # a probe may be masked when an earlier statement of the same function already fails; count a probe
-        # as satisfied when its own line is reported
-        fbv = fn_breakdown(rv["json"])
         for p in info["vac_probes"]:
+            if p.get("file", "unit_vac.rs") != vfile:
+                continue
             if p["line"] in hit:
                 vac["failed_as_expected"] += 1
             else:
                 vac["vacuous"].append(p["what"])
-        res["vac_wall"] = rv["wall"]
+        res["vac_wall"] = res.get("vac_wall", 0) + rv["wall"]
     # per function status
     funcs = []
     failing_fn_names = {f["fn"] for f in failures} | {u["fn"] for u in undecided}
